@@ -81,3 +81,21 @@ Proof.
   intros lines rs H. unfold parse_uc_text, parse_uc, uc_fold_text, uc_fold.
   rewrite (uc_fold_text_records_from lines rs _ H). reflexivity.
 Qed.
+
+(* _from_uc over the text: the renaming of Model/Construct.v from_uc on parse_uc_text *)
+Definition from_uc_text (lines : list text) (fasta : option (list (label * label))) : result uc_table :=
+  match parse_uc_text lines, fasta with
+  | RErr c, _ => RErr c
+  | ROk t, None => ROk t
+  | ROk t, Some m =>
+      match rename_all m (ut_obs t) with
+      | None => RErr E_VALUE
+      | Some new => if ldup new then RErr E_VALUE else ROk (mkUT new (ut_samp t) (ut_mat t))
+      end
+  end.
+
+Lemma from_uc_text_records : forall lines rs fasta,
+  all_records lines = Some rs -> from_uc_text lines fasta = from_uc rs fasta.
+Proof.
+  intros lines rs fasta H. unfold from_uc_text, from_uc. rewrite (parse_uc_text_records lines rs H). reflexivity.
+Qed.
